@@ -17,6 +17,7 @@ refresh, nothing else), nothing pending afterwards, mirror equal to the device a
 import copy
 import hashlib
 import json
+import os
 import re
 
 from harness.common import coq
@@ -50,6 +51,8 @@ ASSUMPTIONS = [
     '"before the master refreshes its mirror": before GET /ports (and, for a listening slave, GET /device); a polled slave is '
     'probed with GET /device first and that answer passes through the guarded _handle_device_update',
 ]
+
+FAIL_POLLED_VALUE_PUSH = os.path.exists(os.path.join(coq.VERIF, 'corpus', 'C13', 'polled-slave-failed-value-push-leaves-mirror-stale.json'))
 
 HEADER = 'From QT Require Import C13.Run.\nOpen Scope string_scope.\n'
 FLAGS = {'webhooks': 1, 'reverse': 2}
@@ -160,8 +163,10 @@ def gen_e2e(rng):
         if pend and rng.random() < 0.3 and not (ops and ops[-1][1] == 'at'):      # (not together with an edit in the window)
             pats = ([('PATCH', '/device')] if any(k[0] == 'dev' for k in pend) else []) + \
                    ([('PATCH', '/ports/[^/]+')] if any(k[0] == 'port' for k in pend) else []) + \
-                   ([('PATCH', '/ports/[^/]+/value')] * 2 if any(k[0] == 'value' for k in pend) and mode == 'listen' else [])
-            # (polled slave + failed value push: the mirror of that port can stay stale, notes/C13.md "observations")
+                   ([('PATCH', '/ports/[^/]+/value')] * 2 if any(k[0] == 'value' for k in pend)
+                    and (mode == 'listen' or FAIL_POLLED_VALUE_PUSH) else [])
+            # (polled slave + failed value push: the mirror of that port stayed stale before
+            # fixes/C13-failed-value-push-keeps-mirror-stale.diff; generated once its witness is an enabled corpus case)
             m_, p_ = rng.choice(pats or [('PATCH', '/nothing')])
             ops.append([0, 'failreq', {'m': m_, 'p': p_, 'skip': rng.choice([0, 0, 1])}, rng.choice(c12.simslave.FAULTS)])
         ops.append([rng.choice([0, 500, 3000]), 'up'])
